@@ -44,7 +44,9 @@ def random_model(rng):
     return {"flav": "AUTOUGH2" if aut else "TOUGH2", "simul": aut, "oldsim": aut and rng.random() < 0.3, "multi": multi,
             "eos": aut and multi, "lineq": aut and rng.random() < 0.6, "lineqtype": rng.choice([1, 2]),
             "solvr": (not aut) and rng.random() < 0.5, "mop": mop, "gens": gens,
-            "short": req if aut else dict(r0), "hist": dict(r0) if aut else req}
+            # an AUTOUGH2 model may also carry history requests, typically of the kinds its SHORT section lacks
+            "short": req if aut else dict(r0),
+            "hist": ({"b": rng.choice([0, 0, 1, 2]), "c": rng.choice([0, 0, 1]), "g": min(rng.choice([0, 0, 1]), nsup)} if aut else req)}
 
 
 def conv_model(models, maxsteps):
@@ -101,9 +103,13 @@ def build_real(m, rng):
             so["connection"] = cl
         if gl:
             so["generator"] = gl
-        if so:
+        if so or rng.random() < 0.3:
             so["frequency"] = 5
         dat.short_output = so
+        h = m["hist"]
+        dat.history_block = [blks[-1 - i] for i in range(h["b"])]
+        dat.history_connection = [dat.grid.connectionlist[-1 - i] for i in range(h["c"])]
+        dat.history_generator = [dat.grid.block[g.block] for g in dat.generatorlist[::-1][:h["g"]]]
     else:
         dat.history_block, dat.history_connection = bl, cl
         dat.history_generator = [dat.grid.block[g.block] for g in gl]
@@ -140,7 +146,8 @@ def check_conversion(rep, pre, act, post, rng, work):
     gens0 = [(g.block, g.name, g.type, g.gx, g.ex) for g in dat.generatorlist]
     req0 = {"b": [b.name for b in (dat.short_output.get("block", []) or dat.history_block)],
             "c": [tuple(x.name for x in c.block) for c in (dat.short_output.get("connection", []) or dat.history_connection)],
-            "g": sorted(set((g.block) for g in dat.short_output.get("generator", [])) | set(b.name for b in dat.history_generator))}
+            # (a kind present in SHORT replaces the history requests of that kind, as Convert.tla says: IF short > 0 THEN short ELSE hist)
+            "g": sorted(set(g.block for g in dat.short_output["generator"]) if dat.short_output.get("generator") else set(b.name for b in dat.history_generator))}
     to_t = act["op"] == "to_TOUGH2"
     key = "%s:%s" % (act["op"], "MP" if act["mp"] else "std")
     det = {"pre": pre, "act": act}
